@@ -22,7 +22,10 @@ translator set produces on the unpatched library:
                       depends on them: vlib/leakeng.py finds sites by file/line of the CURRENT tables, Props/C14.lean
                       quantifies over the lists).  A difference in which only the multiplicity of an already present
                       class list changes is reported as `count-only` (a construction site that was duplicated or
-                      merged, with the same classification) and is not counted as a fact change.
+                      merged, with the same classification) and is not counted as a fact change; neither is a
+                      `regrouped` difference, in which the sites of a key were merged / split (their NUMBER changes) so that the
+                      class lists differ but the SET of classes that occur under the key is the same (three sites [const], [errMdk],
+                      [const, errMdk] folded into one helper whose site is [const, errMdk]).
   exit code != 0      the fact `MISSING:<message>` (a fact the translator could not extract: the check reports a
                       broken tie)
 
@@ -33,6 +36,14 @@ import argparse, collections, concurrent.futures, glob, hashlib, json, os, re, s
 HERE = os.path.dirname(os.path.abspath(__file__))
 ROOT = os.path.normpath(os.path.join(HERE, ".."))
 DEFAULT_ORIG = "55d524a"          # last revision of this repository before the translators were made robust
+# facts whose value on the UNPATCHED library differs from what DEFAULT_ORIG's translators produce, with the reason
+EXPLAINED_BASE_DIFFS = {
+    "leak:errorCtors:crates/mdk-sqlite-storage/src/%s.rs:DatabaseError" % f:
+        "into_%s_err<T: Display>(e: T) is only ever used point-free, `.map_err(into_%s_err)`: its parameter is the error of the "
+        "receiver, exactly what a closure `|e| …(e.to_string())` binds, and is now classed like one (errAny, emitted as errMdk — the "
+        "more conservative of the two clean error classes) instead of errOpaque (`generic error parameter`).  Needed so that "
+        "replacing thirty closures by one such helper (seeded-harmless/H2-p4) changes no class." % (g, g)
+    for f, g in (("groups", "group"), ("messages", "message"), ("welcomes", "welcome"))}
 
 
 def sh(*a, **kw):
@@ -135,6 +146,9 @@ def diff_facts(base, cur):
             continue                     # gen_model.py stopped at the MISSING fact: the facts after it were not computed
         if k.startswith("leak:") and isinstance(a, dict) and isinstance(b, dict) and set(a) == set(b):
             count_only.append(k); continue
+        if k.startswith("leak:") and isinstance(a, dict) and isinstance(b, dict) and sum(a.values()) != sum(b.values()) and \
+                {c for cl in a for c in cl.split(",")} == {c for cl in b for c in cl.split(",")}:
+            count_only.append(k + " (regrouped)"); continue
         if k == "json:leakTables":
             # totals move with count-only differences; the unclean counts are what the engines read
             try:
@@ -272,7 +286,8 @@ def main():
     print(f"\n== unpatched library: facts that differ between the original translators and these: {len(base_diff)}"
           + (f" (+{len(base_co)} count-only)" if base_co else ""))
     for k, (x, y) in base_diff.items():
-        print(f"   {k}: {str(x)[:100]} -> {str(y)[:100]}")
+        print(f"   {k}: {str(x)[:100]} -> {str(y)[:100]}" + ("   [explained in EXPLAINED_BASE_DIFFS]" if k in EXPLAINED_BASE_DIFFS and a.orig == DEFAULT_ORIG else ""))
+    unexplained = [k for k in base_diff if not (k in EXPLAINED_BASE_DIFFS and a.orig == DEFAULT_ORIG)]
     bad = 0
     result = dict(lib_rev=rev, orig=orig_id, new=new_id, base_diff=sorted(base_diff), harmless=[], seeds=[])
 
@@ -337,8 +352,9 @@ def main():
     if not a.keep:
         for w in workers:
             sh("git", "-C", a.lib, "worktree", "remove", "--force", w.repo)
-    print(f"\n{'OK' if not bad and not base_diff else 'REGRESSION'}: {bad} patch(es) with a fact-level regression; {len(base_diff)} baseline difference(s)")
-    return 0 if not bad and not base_diff else 1
+    print(f"\n{'OK' if not bad and not unexplained else 'REGRESSION'}: {bad} patch(es) with a fact-level regression; "
+          f"{len(base_diff)} baseline difference(s), {len(unexplained)} unexplained")
+    return 0 if not bad and not unexplained else 1
 
 
 if __name__ == "__main__":
